@@ -319,12 +319,16 @@ class Parameter(_SupportsArray):
         elif parameter.expression is not None:
             expression = parameter.expression
             if all_parameters is not None:
-                for match in PARAMETER_EXPRESSION_REGEX.findall(expression):
-                    label = match[0]
-                    parameter = all_parameters.get(label)
-                    expression = expression.replace(
-                        f"${label}", f"_{parameter.markdown(all_parameters=all_parameters)}_"
-                    )
+                # Substitute match by match: replacing the text ``$label`` everywhere would also hit
+                # the beginning of a longer label (``$b`` inside ``$b1`` or ``$b.1``).
+                expression = PARAMETER_EXPRESSION_REGEX.sub(
+                    lambda match: "_{}_".format(
+                        all_parameters.get(match["parameter_expression"]).markdown(
+                            all_parameters=all_parameters
+                        )
+                    ),
+                    expression,
+                )
 
             md += f"({value}={expression})"
         else:
